@@ -10,21 +10,42 @@ type dir struct {
 	fs     *ReadOnlyFS
 	name   string
 	offset int
+	closed bool
+}
+
+func (d *dir) checkClosed(op string) error {
+	if d.closed {
+		return &hackpadfs.PathError{Op: op, Path: d.name, Err: hackpadfs.ErrClosed}
+	}
+	return nil
 }
 
 func (d *dir) Read(p []byte) (n int, err error) {
+	if err := d.checkClosed("read"); err != nil {
+		return 0, err
+	}
 	return 0, &hackpadfs.PathError{Op: "read", Path: d.name, Err: hackpadfs.ErrIsDir}
 }
 
 func (d *dir) Close() error {
+	if err := d.checkClosed("close"); err != nil {
+		return err
+	}
+	d.closed = true
 	return nil
 }
 
 func (d *dir) Stat() (hackpadfs.FileInfo, error) {
+	if err := d.checkClosed("stat"); err != nil {
+		return nil, err
+	}
 	return hackpadfs.Stat(d.fs, d.name)
 }
 
 func (d *dir) ReadDir(n int) ([]hackpadfs.DirEntry, error) {
+	if err := d.checkClosed("readdir"); err != nil {
+		return nil, err
+	}
 	entries, err := hackpadfs.ReadDir(d.fs.sourceFS, d.name)
 	if err != nil {
 		return nil, err
